@@ -10,7 +10,8 @@
    (Generated/Maskbits.v is rewritten from sdss.py on every run). *)
 From Coq Require Import ZArith List Bool Sorting.Permutation Sorting.Sorted.
 Import ListNotations.
-From PV Require Import C07.Model C07.Dict C07.Group C07.Proofs Generated.Maskbits.
+From PV Require Import Yanny.Bytes Yanny.Types Yanny.Parse.
+From PV Require Import C07.Model C07.Dict C07.Group C07.Proofs C07.FileModel C07.FileProofs C07.Code Generated.Maskbits.
 Open Scope Z_scope.
 
 (* a well-formed file always loads (no KeyError from an alias) *)
@@ -210,9 +211,144 @@ Example C07_unnormalised_load_violates :
   end.
 Proof. vm_compute. repeat split; reflexivity. Qed.
 
+(* ---------------------------------------------------------------------------------------------------------------
+   "for any maskbits FILE": the same statements from the bytes of the file, through the proved model of the raw
+   yanny reader (Yanny/Parse.v parse_raw, the subject of C01/C02).  file_tables reads the MASKBITS / MASKALIAS rows
+   out of the reader's result the way set_maskbits does; from_file = set_maskbits(maskbits_file=...).            *)
+
+Theorem C07_file_is_load : forall up b r rows aliases,
+  parse_raw b = Some r -> file_tables r = Some (rows, aliases) -> from_file up b = load up rows aliases.
+Proof. exact from_file_load. Qed.
+Print Assumptions C07_file_is_load.
+
+Theorem C07_file_load_total : forall b r rows aliases,
+  parse_raw b = Some r -> file_tables r = Some (rows, aliases) -> wf_file rows aliases = true ->
+  exists m, from_file true b = Some m.
+Proof. exact file_load_total. Qed.
+Print Assumptions C07_file_load_total.
+
+Theorem C07_file_model_refines_spec : forall b r rows aliases m,
+  parse_raw b = Some r -> file_tables r = Some (rows, aliases) -> wf_file rows aliases = true ->
+  from_file true b = Some m ->
+  forall k s, spec_call rows aliases k = Some s -> model_call_c std_cfg m k = s.
+Proof. exact file_model_refines_spec. Qed.
+Print Assumptions C07_file_model_refines_spec.
+
+Theorem C07_file_flagval_is_or : forall b r rows aliases m,
+  parse_raw b = Some r -> file_tables r = Some (rows, aliases) -> wf_file rows aliases = true ->
+  from_file true b = Some m ->
+  forall g ls bs, known rows aliases g = true -> distinct_labels ls = true ->
+  bits_of (defs rows aliases g) (map upper ls) = Some bs ->
+  flagval m g ls = RVal (or_bits bs) /\ 0 <= or_bits bs < 2 ^ 64 /\
+  (forall n, Z.testbit (or_bits bs) n = true <-> In n bs).
+Proof. exact file_flagval_is_or. Qed.
+Print Assumptions C07_file_flagval_is_or.
+
+Theorem C07_file_flagname_spec : forall b r rows aliases m,
+  parse_raw b = Some r -> file_tables r = Some (rows, aliases) -> wf_file rows aliases = true ->
+  from_file true b = Some m ->
+  forall g v, known rows aliases g = true -> in_u64 v = true ->
+  exists pairs, flagname m g v = RNames (map fst pairs) /\
+    StronglySorted lt_snd pairs /\
+    (forall l b0, In (l, b0) pairs <-> In (l, b0) (defs rows aliases g) /\ Z.testbit v b0 = true).
+Proof. exact file_flagname_spec. Qed.
+Print Assumptions C07_file_flagname_spec.
+
+Theorem C07_file_val_names_val : forall b r rows aliases m,
+  parse_raw b = Some r -> file_tables r = Some (rows, aliases) -> wf_file rows aliases = true ->
+  from_file true b = Some m ->
+  forall g v, known rows aliases g = true -> in_u64 v = true ->
+  match flagname m g v with RNames ns => flagval m g ns | r0 => r0 end
+  = RVal (Z.land v (defined_mask (defs rows aliases g))).
+Proof. exact file_val_names_val. Qed.
+Print Assumptions C07_file_val_names_val.
+
+Theorem C07_file_names_val_names : forall b r rows aliases m,
+  parse_raw b = Some r -> file_tables r = Some (rows, aliases) -> wf_file rows aliases = true ->
+  from_file true b = Some m ->
+  forall g ls bs, known rows aliases g = true -> distinct_labels ls = true ->
+  bits_of (defs rows aliases g) (map upper ls) = Some bs ->
+  exists ns, match flagval m g ls with RVal v => flagname m g v | r0 => r0 end = RNames ns /\
+             Permutation ns (map upper ls) /\ ns = spec_names (defs rows aliases g) (or_bits bs).
+Proof. exact file_names_val_names. Qed.
+Print Assumptions C07_file_names_val_names.
+
+Theorem C07_file_alias_same : forall b r rows aliases m,
+  parse_raw b = Some r -> file_tables r = Some (rows, aliases) -> wf_file rows aliases = true ->
+  from_file true b = Some m ->
+  forall f a, In (f, a) aliases ->
+  (forall ls, flagval m a ls = flagval m f ls) /\
+  (forall v, flagname m a v = flagname m f v) /\
+  (forall ls fe we, flagexist m a ls fe we = flagexist m f ls fe we).
+Proof. exact file_alias_same. Qed.
+Print Assumptions C07_file_alias_same.
+
+Theorem C07_file_unknown_keyerror : forall b r rows aliases m,
+  parse_raw b = Some r -> file_tables r = Some (rows, aliases) -> wf_file rows aliases = true ->
+  from_file true b = Some m ->
+  forall g, known rows aliases g = false ->
+  (forall ls, ls <> [] -> flagval m g ls = RKeyError) /\
+  (forall v, in_u64 v = true -> v <> 0 -> flagname m g v = RKeyError).
+Proof. exact file_unknown_keyerror. Qed.
+Print Assumptions C07_file_unknown_keyerror.
+
+(* ---------------------------------------------------------------------------------------------------------------
+   repeated labels (outside the property, which speaks of a SET of distinct labels): the behaviour is pinned --
+   `+=` adds 2^bit once per occurrence, mod 2^64 *)
+Theorem C07_repeated_labels_behaviour : forall rows aliases m,
+  wf_file rows aliases = true -> load true rows aliases = Some m ->
+  forall g ls bs, known rows aliases g = true -> bits_of (defs rows aliases g) (map upper ls) = Some bs ->
+  flagval m g ls = RVal (pow_sum bs mod two64).
+Proof. exact repeated_labels_behaviour. Qed.
+Print Assumptions C07_repeated_labels_behaviour.
+
+(* a label given twice (in any spelling) sets the NEXT bit; bit 63 twice gives 0 *)
+Theorem C07_label_twice : forall rows aliases m,
+  wf_file rows aliases = true -> load true rows aliases = Some m ->
+  forall g l l' b0, known rows aliases g = true -> upper l = upper l' ->
+  dget (upper l) (defs rows aliases g) = Some b0 ->
+  flagval m g [l; l'] = RVal (if b0 =? 63 then 0 else 2 ^ (b0 + 1)).
+Proof. exact label_twice. Qed.
+Print Assumptions C07_label_twice.
+
+(* ---------------------------------------------------------------------------------------------------------------
+   the model with the facts of the source as parameters (what the correspondence run evaluates) is the model of
+   the theorems as soon as the parameters have the standard values ... *)
+Theorem C07_cfg_std : forall c : cfg, c = std_cfg ->
+  (forall rows aliases, load_c c rows aliases = load true rows aliases) /\
+  (forall m k, model_call_c c m k = model_call m k).
+Proof. exact cfg_std. Qed.
+Print Assumptions C07_cfg_std.
+
+(* ... and these are the obligations that the source HAS the standard values (GENERATED from the ast of
+   sdss_flagname / sdss_flagval / sdss_flagexist / set_maskbits on every run; each fails with the source) *)
+Theorem C07_code_scans_64_bits : scan_bits = 64%nat.
+Proof. exact (eq_refl 64%nat). Qed.
+Print Assumptions C07_code_scans_64_bits.
+
+Theorem C07_code_accumulates_uint64_sum : accumulate_is_add = true /\ acc_dtype_uint64 = true.
+Proof. exact (conj (eq_refl true) (eq_refl true)). Qed.
+Print Assumptions C07_code_accumulates_uint64_sum.
+
+Theorem C07_code_takes_first_label : lookup_first = true.
+Proof. exact (eq_refl true). Qed.
+Print Assumptions C07_code_takes_first_label.
+
+Theorem C07_code_uppercases_arguments : upper_group = true /\ upper_labels = true.
+Proof. exact (conj (eq_refl true) (eq_refl true)). Qed.
+Print Assumptions C07_code_uppercases_arguments.
+
+Theorem C07_code_exist_requires_all : exist_all = true.
+Proof. exact (eq_refl true). Qed.
+Print Assumptions C07_code_exist_requires_all.
+
 (* the source normalises the names it stores (GENERATED flag): without this, every theorem above is about a
    dictionary the code only builds for all-upper-case files.  Kept last: it fails when set_maskbits stores
    the file's spelling. *)
 Theorem C07_code_normalises : load_upper = true.
 Proof. exact (eq_refl true). Qed.
 Print Assumptions C07_code_normalises.
+
+Theorem C07_code_is_standard : code_cfg = std_cfg.
+Proof. exact (eq_refl std_cfg). Qed.
+Print Assumptions C07_code_is_standard.
